@@ -1,0 +1,29 @@
+//go:build verif
+
+package operator
+
+import "time"
+
+// Accessors for the verification harness (/verif, property C02). Compiled only with -tags verif.
+
+// VerifSync returns after the event loop has run everything it received before
+// this call (a no-op closure travels through o.events).
+func (o *Operator) VerifSync() {
+	done := make(chan struct{})
+	o.events <- func() { close(done) }
+	<-done
+}
+
+// VerifTimerFromKey decodes a stored timer key (schema byte 0x01).
+func VerifTimerFromKey(b []byte) (subjectKey []byte, t time.Time, ok bool) {
+	if len(b) < 11 || b[2] != 0x01 {
+		return nil, time.Time{}, false
+	}
+	tm := (&TimerStore{}).timerFromBytes(b)
+	return tm.Key, tm.Timestamp, true
+}
+
+// VerifIsStateKey reports whether a stored key belongs to the keyed state store (schema byte 0x00).
+func VerifIsStateKey(b []byte) bool {
+	return len(b) >= 8 && b[2] == 0x00
+}
